@@ -38,6 +38,14 @@ Theorem C13_leb128_56 : forall v rest, 0 <= v < 72057594037927936 ->
 Proof. exact leb128_roundtrip. Qed.
 Print Assumptions C13_leb128_56.
 
+(* EncodeLEB128 packs exactly those bytes, first byte most significant, into one 64-bit uint - for
+   every value that needs at most eight LEB128 bytes (below 2^56) *)
+From RTP Require Import Proofs.Leb128Pack.
+Theorem C13_leb128_packed : forall v, 0 <= v < 72057594037927936 ->
+  encode_leb128 v = be256 (write_leb128 v) 0 /\ (length (write_leb128 v) <= 8)%nat.
+Proof. exact encode_leb128_packs. Qed.
+Print Assumptions C13_leb128_packed.
+
 Theorem C13_leb128_length : forall v, 0 <= v < 4294967296 -> 1 <= zlen (write_leb128 v) <= 5.
 Proof. exact leb128_length_u32. Qed.
 Print Assumptions C13_leb128_length.
